@@ -150,6 +150,41 @@ def datasets(rng, D, n, kind):
     return X, y
 
 
+def check_round(rep, op, combi, name, strategy, lam, mat, D):
+    TX = np.asarray(op.training_data, dtype=float)
+    ty = np.asarray(op.training_target_values, dtype=float)
+    m = len(ty)
+    worst = 0.0
+    ngr = 0
+    for g in combi.scheme:
+        lv = tuple(int(x) for x in g.levelvector)
+        alphas = np.asarray(op.surpluses[lv], dtype=float).flatten()
+        if strategy == 'standard':
+            coords = [[k / 2 ** l for k in range(2 ** l + 1)] for l in lv]
+        else:
+            with impl.quiet():
+                c, _, _ = combi.get_point_coord_for_each_dim(list(lv))
+            coords = [list(map(float, x)) for x in c]
+        A = exact_hats(coords, TX)
+        if A.shape[1] != len(alphas):
+            rep.violation('C20_NormalEquations', {'strategy': strategy, 'shape': True}, {'case': name, 'levelvec': lv}, what='%s %s grid %s: %d surpluses for %d basis functions' % (name, strategy, lv, len(alphas), A.shape[1]))
+            continue
+        if lam == 0:
+            res = A.T @ (A @ alphas - ty) / m
+        else:
+            M = exact_stiffness(coords) if mat == 'C' else np.eye(A.shape[1])
+            res = (A.T @ A / m + lam * M) @ alphas - A.T @ ty / m
+        scale = max(1.0, float(np.max(np.abs(A.T @ ty / m))))
+        worst = max(worst, float(np.max(np.abs(res))) / scale)
+        ngr += 1
+    rep.count(1, key=(name, strategy))
+    rep.residual('normal_equations_%s' % strategy, worst <= 1e-8)
+    rep.sample({'case': name, 'strategy': strategy, 'component_grids': ngr, 'max_normal_equation_residual': worst}, limit=4)
+    if worst > 1e-8:
+        rep.violation('C20_NormalEquations', {'strategy': strategy, 'matrix': mat, 'lambda_zero': lam == 0, 'D': D, 'retrained': 'training on the same object' in name}, {'case': name, 'max_residual': worst},
+                      what='%s, %s training: surpluses violate the normal equations (relative residual %r)' % (name, strategy, worst))
+
+
 def training(rep, tier, rng):
     from sparseSpACE.GridOperation import Regression
     cases = [(1, 'random', 0.0, 'C', 1, 3), (2, 'random', 0.0, 'C', 1, 3), (2, 'random', 0.01, 'I', 1, 3), (2, 'lattice', 0.01, 'C', 1, 3), (2, 'random', 0.1, 'C', 2, 3), (1, 'lattice', 0.001, 'C', 1, 4)]
@@ -173,38 +208,19 @@ def training(rep, tier, rng):
                 rep.violation('C20_NoException', {'stage': 'train', 'strategy': strategy, 'exception': type(ex).__name__, 'default_arguments': True}, {'case': name, 'exception': repr(ex)},
                               what='%s, %s training with default constructor arguments raised %r' % (name, strategy, ex))
                 continue
-            TX = np.asarray(op.training_data, dtype=float)
-            ty = np.asarray(op.training_target_values, dtype=float)
-            m = len(ty)
-            worst = 0.0
-            ngr = 0
-            for g in combi.scheme:
-                lv = tuple(int(x) for x in g.levelvector)
-                alphas = np.asarray(op.surpluses[lv], dtype=float).flatten()
-                if strategy == 'standard':
-                    coords = [[k / 2 ** l for k in range(2 ** l + 1)] for l in lv]
-                else:
-                    with impl.quiet():
-                        c, _, _ = combi.get_point_coord_for_each_dim(list(lv))
-                    coords = [list(map(float, x)) for x in c]
-                A = exact_hats(coords, TX)
-                if A.shape[1] != len(alphas):
-                    rep.violation('C20_NormalEquations', {'strategy': strategy, 'shape': True}, {'case': name, 'levelvec': lv}, what='%s %s grid %s: %d surpluses for %d basis functions' % (name, strategy, lv, len(alphas), A.shape[1]))
-                    continue
-                if lam == 0:
-                    res = A.T @ (A @ alphas - ty) / m
-                else:
-                    M = exact_stiffness(coords) if mat == 'C' else np.eye(A.shape[1])
-                    res = (A.T @ A / m + lam * M) @ alphas - A.T @ ty / m
-                scale = max(1.0, float(np.max(np.abs(A.T @ ty / m))))
-                worst = max(worst, float(np.max(np.abs(res))) / scale)
-                ngr += 1
-            rep.count(1, key=(name, strategy))
-            rep.residual('normal_equations_%s' % strategy, worst <= 1e-8)
-            rep.sample({'case': name, 'strategy': strategy, 'component_grids': ngr, 'max_normal_equation_residual': worst}, limit=4)
-            if worst > 1e-8:
-                rep.violation('C20_NormalEquations', {'strategy': strategy, 'matrix': mat, 'lambda_zero': lam == 0, 'D': D}, {'case': name, 'max_residual': worst},
-                              what='%s, %s training: surpluses violate the normal equations (relative residual %r)' % (name, strategy, worst))
+            rounds = [('first training', combi)]
+            if strategy == 'standard':
+                # the same object trained again with another split / level range: nothing may be carried over
+                try:
+                    with impl.quiet(), impl.watchdog(600):
+                        rounds.append(('second training (test share 0.5)', op.train(0.5, lmin, lmax)))
+                        check_round(rep, op, rounds[-1][1], name + ', second training on the same object', strategy, lam, mat, D)
+                        rounds.append(('third training (one more level)', op.train(0.5, lmin, lmax + 1)))
+                        check_round(rep, op, rounds[-1][1], name + ', third training on the same object', strategy, lam, mat, D)
+                        combi = op.train(0.2, lmin, lmax)
+                except impl.Timeout:
+                    rep.exclude('%s retraining: timeout' % name)
+            check_round(rep, op, combi, name, strategy, lam, mat, D)
             # coefficient optimisation variants
             for option in (1, 2, 3):
                 try:
